@@ -320,6 +320,9 @@ GLOBAL_RULES = [
     ('R1', re.compile(r'(\.(?:map|and_then|map_or|map_or_else|or_else|unwrap_or_else)\((?:[^()]|\([^()]*\))*?,\s*|\.(?:map|and_then)\(\s*)(Ok|Err|Some)\s*\)'),
      lambda m: '%s|__v| %s(__v))' % (m.group(1), m.group(2))),
     ('R2', re.compile(r'\|_\|'), lambda m: '|_e|'),
+    # R36: associated constants of `char` that Verus' front end does not know, by their documented literal values
+    ('R36', re.compile(r'\b(?:std::)?char::REPLACEMENT_CHARACTER\b'), lambda m: "'\\u{FFFD}'"),
+    ('R36', re.compile(r'\b(?:std::)?char::MAX\b'), lambda m: "'\\u{10FFFF}'"),
     ('R5', re.compile(r'\b((?:[A-Za-z_]\w*)(?:\.[A-Za-z_]\w*)*)\.deref\(\)'), lambda m: '(&*%s)' % m.group(1)),
     ('R13', re.compile(r'\bfor _ in\b'), lambda m: 'for _i in'),
     ('R3', re.compile(r'(?m)^([ \t]*)\((\w+), (\w+)\) = ([^;]+);'),
